@@ -23,7 +23,7 @@ RULE = ("base structures as in C02 (validated planted copies, per-atom perturbat
         "related FIRST atoms, atoms listed copy by copy / slot-major / reversed / random; "
         "cells incl. 1, 2, 3 negative diagonal entries (alone or mixed with off-diagonal entries; every kind in a dedicated "
         "stream with the three half turns); relations: the whole crystal (cell + atoms) turned rigidly (half turns about the "
-        "axes, quarter turns, arbitrary rational rotations); plain call (return_positions_and_quats=False); shift by a random vector (|components| <= 2 cell lengths) + fractional wrap; random atom permutation (a freshly built object, and the SAME Atoms object permuted in place between two searches); "
+        "axes, quarter turns, arbitrary rational rotations); UNWRAPPED TWIN (the same crystal with per-atom lattice shifts of up to +-2 cells); plain call (return_positions_and_quats=False); shift by a random vector (|components| <= 2 cell lengths) + fractional wrap; random atom permutation (a freshly built object, and the SAME Atoms object permuted in place between two searches); "
         "pattern moved by a random rational rotation + translation; ALL hint triples (each entry None or an index; spelled "
         "as int / negative int / numpy int) of the patterns with <= 4 atoms whose given axis points are distinct and whose "
         "given orientation point is >= 0.05 A off the (resolved) axis, copies perturbed atol/8 (lever ratios ro<=3, ra<=2.5) "
@@ -156,6 +156,9 @@ def relation(base, rel, param, base_keys=None):
         if got != want:
             return "key set after permuting the SAME Atoms object in place: %s  vs  %s" % (got[:4], want[:4]), tb, res
         return None, tb, res
+    elif rel == "unwrap":
+        # the same crystal with atom i stored param[i] cells away (integer multipliers of the cell vectors)
+        tb = dict(base, pos=(np.array(base["pos"]) + np.array(param, dtype=float).dot(np.array(base["cell"]))).tolist())
     elif rel == "rotate-crystal":
         tb = t_rotate(base, param)
     elif rel == "pattern":
@@ -320,6 +323,7 @@ def run(ctx, oracle_only=False, scale=1):
         check_rel(ctx, base, "perm-inplace", order2, bk, pairs, False)
         check_rel(ctx, base, "pattern", pm, bk, pairs, tieit())
         check_rel(ctx, base, "rotate-crystal", list(crystal_turn(rng)), bk, pairs, tieit())
+        check_rel(ctx, base, "unwrap", g.lattice_shifts(rng, len(base["elems"])), bk, pairs, tieit())
         for sd in rng.sample(range(3, 10 ** 6), ctx.n(2, 3)):
             check_rel(ctx, base, "seed", sd, bk, pairs, False)
         if rng.random() < 0.5:
@@ -356,6 +360,7 @@ def run(ctx, oracle_only=False, scale=1):
         check_rel(ctx, base, "perm", sorted(range(n_at), key=lambda a: (a % k_at, a)), bk, pairs, False)
         check_rel(ctx, base, "perm-inplace", order, bk, pairs, False)
         check_rel(ctx, base, "shift", v, bk, pairs, False)
+        check_rel(ctx, base, "unwrap", g.lattice_shifts(rng, len(base["elems"])), bk, pairs, False)
         check_rel(ctx, base, "seed", rng.randrange(3, 10 ** 6), bk, pairs, False)
     # ---- cells with 1, 2, 3 negative diagonal entries (also mixed with off-diagonal entries), every kind in turn: all
     # relations, and in particular the same crystal turned by half turns (which flips the signs of two diagonal entries)
@@ -384,6 +389,7 @@ def run(ctx, oracle_only=False, scale=1):
             qq[ax] = 1
             check_rel(ctx, base, "rotate-crystal", qq, bk, pairs, len(pairs) < n_tie and rng.random() < 0.2)
         check_rel(ctx, base, "rotate-crystal", list(fl.rat_quat(rng, "random")), bk, pairs, False)
+        check_rel(ctx, base, "unwrap", g.lattice_shifts(rng, len(base["elems"])), bk, pairs, False)
         if widths_ok(base) and len(base["elems"]) <= 30:
             check_rel(ctx, base, "replicate", list(rng.choice([(2, 1, 1), (1, 2, 1), (1, 1, 2)])), bk, pairs, False)
     # ---- known finding C03-supercell-two-images-one-group: narrow cells (D < width < 2 D along one cell vector) in
@@ -535,6 +541,7 @@ def mof_files(ctx, rng):
             check_rel(ctx, base, "perm-inplace", order, bk, tags=["mof"])
             check_rel(ctx, base, "pattern", pm, bk, tags=["mof"])
             check_rel(ctx, base, "rotate-crystal", list(crystal_turn(rng)), bk, tags=["mof"])
+            check_rel(ctx, base, "unwrap", g.lattice_shifts(rng, len(base["elems"])), bk, tags=["mof"])
             check_rel(ctx, base, "seed", rng.randrange(10 ** 6), bk, tags=["mof"])
         check_rel(ctx, base, "replicate", list(rng.choice([(2, 1, 1), (1, 2, 1), (1, 1, 2)])), bk, tags=["mof"])
 
